@@ -45,7 +45,7 @@ Blocked == /\ Ev.ev = "blocked"
            /\ Drift(~(doneSeen \/ Ledger > 0), "WriterBlockedModelSaysFree", l)
            /\ UNCHANGED rest
 Quiet == /\ Ev.ev = "quiet"
-         /\ Mark(Ev.timeout, "P_NoDeadlock", l)
+         /\ Drift(Ev.timeout, "SettleTimeout", l)
          /\ Mark(Ev.phase = 1 /\ Ev.stuck /\ (Ledger > 0 \/ doneSeen), "P_Release", l)
          /\ Mark(Ev.phase = 2 /\ Ev.stuck, "P_ReleasedOnDone", l)
          \* quota returns to the initial value after all granted data has been written
